@@ -111,6 +111,24 @@ fn align2(shape: &Shape2, scale: f64, pose: &Iso2D, fracs: &[f64], angle_deg: f6
     let size = { let c = pts.iter().fold(Vector2::zeros(), |s, p| s + p.coords) / pts.len() as f64; pts.iter().map(|p| (p.coords - c).norm()).fold(0.0, f64::max) * 2.0 };
     let centroid = Point2::from(pts[..pts.len() - 1].iter().fold(Vector2::zeros(), |s, p| s + p.coords) / (pts.len() - 1) as f64);
     let samples: Vec<Point2> = fracs.iter().map(|f| model.point_at(f * model.len())).collect();
+    if !honesty {
+        // "all sample sets" means sets that fix all three degrees of freedom: the normal matrix of the point-to-line
+        // problem at the true pose (rows [n, (p - centroid) x n / size]) must be well conditioned.  Uniformly drawn
+        // fractions always are; shrinking and byte-level mutation can produce forty copies of one point.
+        let mut ata = parry2d_f64::na::Matrix3::<f64>::zeros();
+        for p in &samples {
+            let (_, _, ei, _) = model.closest(p);
+            let e = (model.v[ei + 1] - model.v[ei]).normalize();
+            let n = Vector2::new(e.y, -e.x);
+            let r = p - centroid;
+            let row = parry2d_f64::na::Vector3::new(n.x, n.y, (r.x * n.y - r.y * n.x) / size);
+            ata += row * row.transpose();
+        }
+        let ev = ata.symmetric_eigenvalues();
+        if ev.min() < 2e-3 * samples.len() as f64 {
+            return Verdict::Discard("sample set does not fix all degrees of freedom");
+        }
+    }
     // displacement about the centroid
     let about = |a_deg: f64, tv: &P2| -> Iso2 { Iso2::new(Vector2::new(tv[0] * size, tv[1] * size), 0.0) * Iso2::new(centroid.coords, 0.0) * Iso2::new(Vector2::zeros(), a_deg.to_radians()) * Iso2::new(-centroid.coords, 0.0) };
     let disp = about(angle_deg, t);
@@ -212,6 +230,23 @@ fn align3(kind: &MeshKind, pose: &Iso3D, samples: &[(f64, f64, f64)], axis: &P3,
             Point3::from(a.coords * (1.0 - s) + b.coords * (s * (1.0 - r2)) + c.coords * (s * r2))
         })
         .collect();
+    if !honesty {
+        // as in 2D: the 6x6 normal matrix of the point-to-plane problem at the true pose must be well conditioned
+        let mut ata = parry3d_f64::na::Matrix6::<f64>::zeros();
+        for p in &pts {
+            let (_, _, fi) = soup.closest(p);
+            let (a, b, c) = soup.tri(fi);
+            let Some(n) = tri_normal(&a, &b, &c) else { continue };
+            let r = (p - centroid) / size;
+            let m = r.cross(&n);
+            let row = parry3d_f64::na::Vector6::new(n.x, n.y, n.z, m.x, m.y, m.z);
+            ata += row * row.transpose();
+        }
+        let ev = ata.symmetric_eigenvalues();
+        if ev.min() < 2e-3 * pts.len() as f64 {
+            return Verdict::Discard("sample set does not fix all degrees of freedom");
+        }
+    }
     let about = |ax: &P3, a_deg: f64, tv: &P3| -> Iso3 {
         let axis = v3(ax).normalize() * a_deg.to_radians();
         Iso3::new(Vector3::new(tv[0], tv[1], tv[2]) * size, Vector3::zeros()) * Iso3::new(centroid.coords, Vector3::zeros()) * Iso3::new(Vector3::zeros(), axis) * Iso3::new(-centroid.coords, Vector3::zeros())
